@@ -106,6 +106,15 @@ def gen_jobs(rng, tier: str) -> list:
             if name == 'syntax-error' and form == 'code':
                 continue                # a code object cannot be built from it
             mk(lambda p, r, s=src: s, 'fixed:' + name, form, pols[(i + k) % len(pols)], True, k == 2)
+    # corpus/C04/*.json: known findings, run on every run
+    d = C.CORPUS / 'C04'
+    for p in sorted(d.glob('*.json')) if d.exists() else []:
+        cj = json.loads(p.read_text())
+        j = cj['job']
+        jobs.append({'src': j['src'], 'form': j['form'], 'trace_threads': j['trace_threads'], 'trace_modules': j['trace_modules'], 'pol': 'interrupt',
+                     'policy': {'kind': 'custom', 'module': 'harness.props.c04', 'func': 'make_policy',
+                                'args': {'after': j['interrupt_after'], 'cmd': j['cmd']}},
+                     'reference': True, 'timeout': 15, 'name': 'corpus:' + p.stem, 'interrupt': True, 'expect': cj.get('expect') or []})
     # Ctrl-C while a prompt is open
     for i, (after, cmd) in enumerate([(0, 'next'), (2, 'step'), (3, 'next'), (4, 'step')]):
         src = 'def f(a):\n    b = a + 1\n    return b\nx = f(1)\ny = f(x)\nprint(y)\n'
@@ -217,7 +226,7 @@ def oracle(job: dict, res: dict, ref: dict) -> tuple[list, tuple]:
 
 def run(ctx, jobs: list, corr: Corr, seen: set) -> None:
     from .. import child
-    strip = ('block', 'name', 'pol', 'interrupt')
+    strip = ('block', 'name', 'pol', 'interrupt', 'expect')
     results = child.run_jobs([{k: v for k, v in j.items() if k not in strip} for j in jobs], par=14, chunk=8)
     redo = [i for i, r in enumerate(results) if (r.get('error') and not jobs[i].get('interrupt')) or not r.get('reference')]
     if redo:
@@ -249,6 +258,10 @@ def run(ctx, jobs: list, corr: Corr, seen: set) -> None:
             if ref.get('stdout') or ref.get('exc_type') or job['form'] == 'callable':
                 corr.distinct_nontrivial += 1
         bad, case = oracle(job, res, ref)
+        for want in job.get('expect') or []:
+            if not any(sig == want for sig, _ in bad):
+                ctx.notes.append(f'corpus entry {job["name"]} no longer reproduces the known finding {want}')
+                ctx.log(f'NOTE: {job["name"]} does not reproduce {want} any more')
         payload = {'job': {k: job[k] for k in ('src', 'form', 'trace_threads', 'trace_modules', 'policy', 'pol', 'name') if k in job},
                    'interrupt': bool(job.get('interrupt'))}
         for sig, what in bad:
